@@ -22,7 +22,11 @@ EXPLANATION = (
     "routines the diagonal update squares the vector that is being counted, the residual R contracts all "
     "vectors computed so far (slice bound = next write index) with the pivot column, and the new vector "
     "is (M[pivot] - R) / sqrt(residual at that pivot). chunked_cholesky's write is not bounded by its "
-    "buffer (it raises IndexError rather than returning a wrong factorisation): reported as a note."
+    "buffer (it raises IndexError rather than returning a wrong factorisation): reported as a note. "
+    "PAIR-4 is decided on the value graph of the loop body (names play no role): pivot = "
+    "argmax|residual| over the whole diagonal, the residual is diag - (Mapprox + L[v]^2), the new "
+    "vector is (M[pivot] - L[:v+1, pivot] . L[:v+1]) / sqrt(|residual[pivot]|). PURE-1: no "
+    "gradient-blocking call inside the differentiable JAX routine. "
 )
 NOT_DECIDED = "reconstruction accuracy, differentiability and the choice of thresholds are numerical."
 TECHNIQUE = "static analysis: loop-counter interval analysis and pivot def-use pairing on the three Cholesky routines"
